@@ -245,7 +245,7 @@ func (k *collector) judge(path string, c cell, want, got bool, obsErr error) {
 		return
 	}
 	if got && !want {
-		if path != "startup" && underflowClass(c) && c.Src != srcNotFound {
+		if path != "startup" && underflowClass(c) {
 			if k.rec.Known(fpUnderflow) {
 				k.known++
 				k.rec.Label("known:unpaid-since-after-epoch")
